@@ -44,7 +44,6 @@ LEVEL_TEXT = ("for each generated scenario every single-fault position over the 
               "enumerated (kinds: OSError, never-completes, client EOF before/after); scenarios themselves are sampled")
 LEVEL_NOTE = "trusts lib/simloop.py + lib/simhandler.py (fakes) and asyncio itself; multi-fault combinations only as generated"
 QUICK_N, THOROUGH_N = 5_000, 150_000  # base scenarios; evaluations count every faulted run
-BUDGET_S = (150, 3600)
 MAX_POINTS = 48
 
 KINDS_IO = ("err", "hang", "ceof", "ceof_after")
